@@ -31,6 +31,9 @@ is NOT instantiated for them by a theorem — there it is tied by correspondence
 def LCSpec {K : Type} [CommRing K] (lc : OdlModel.ElemOps.LC K) : Prop :=
   ∀ A a b m, ∃ m', lc A a b m = some m' ∧ Spec A a b m m'
 
+/-- Descriptor of three C- and F-contiguous float arrays (used by the `example`s). -/
+abbrev contigD : Desc := ⟨⟨true, true⟩, ⟨true, true⟩, ⟨true, true⟩, false, false, false⟩
+
 end OdlModel.C01
 
 open OdlModel.Lincomb OdlModel.Gen.Lincomb OdlModel.C01 OdlModel.ElemOps
@@ -541,6 +544,248 @@ theorem C01.opStep_ok (lc : LC K) (h : LCSpec lc) (op : Op)
     rcases hop with rfl | rfl | rfl | rfl <;> simpa [Op.inPlace] using hr
   subst hrp
   exact ⟨m', by simp [opStep, e], v, fun b hb hbt => f b hb hbt⟩
+
+end
+
+/-! ## Out-of-place power-space broadcasting (`x * other`, `other - x`, `x / x[0]` …) -/
+
+section
+variable {K : Type} [Field K] [DecidableEq K]
+
+/-- What one out-of-place loop step `res = xi op other` has to do: the fresh buffer `t` gets
+`g part other`, nothing else changes (in particular neither the part nor `other`). -/
+def BStepOutOK (step : BStepOut K) (g : K → K → K) (ok : Vec K → Vec K → Prop) : Prop :=
+  ∀ p o t m, t ≠ p → t ≠ o → ok (m p) (m o) →
+    ∃ m', step p o t m = some m' ∧ (∀ i, m' t i = g (m p i) (m o i)) ∧
+      ∀ b, b ≠ t → m' b = m b
+
+/-- The out-of-place loop over the parts: for ANY list of part buffers (a part object may
+occur several times, and `other` may be one of the parts), result buffers `ts` that are
+pairwise distinct and fresh, the `k`-th result holds `g part_k other` and no buffer outside
+`ts` changes. By induction over the parts. -/
+theorem C01.bcastOutLoop_ok (step : BStepOut K) (g : K → K → K) (ok : Vec K → Vec K → Prop)
+    (o : Nat) (hs : BStepOutOK step g ok) :
+    ∀ (ps ts : List Nat) (m : Mem K), ps.length = ts.length → ts.Nodup →
+      (∀ t ∈ ts, t ∉ ps ∧ t ≠ o) → (∀ p ∈ ps, ok (m p) (m o)) →
+      ∃ m', bcastOutLoop step o ps ts m = some m' ∧
+        (∀ pt ∈ ps.zip ts, ∀ i, m' pt.2 i = g (m pt.1 i) (m o i)) ∧
+        ∀ b, b ∉ ts → m' b = m b := by
+  intro ps
+  induction ps with
+  | nil =>
+    intro ts m hl _ _ _
+    have : ts = [] := List.length_eq_zero_iff.mp hl.symm
+    subst this
+    exact ⟨m, rfl, by simp, fun _ _ => rfl⟩
+  | cons p ps ih =>
+    intro ts m hl hnd hfr hok
+    match ts, hl with
+    | t :: ts, hl =>
+      have hnd' := List.nodup_cons.mp hnd
+      have htp : t ≠ p := fun h => (hfr t (by simp)).1 (by simp [h])
+      have hto : t ≠ o := (hfr t (by simp)).2
+      have htps : t ∉ ps := fun h => (hfr t (by simp)).1 (by simp [h])
+      obtain ⟨m1, e1, v1, f1⟩ := hs p o t m htp hto (hok p (by simp))
+      have hm1o : m1 o = m o := f1 o (Ne.symm hto)
+      obtain ⟨m', e, v, f⟩ := ih ts m1 (by simpa using hl) hnd'.2
+        (fun t' ht' => ⟨fun h => (hfr t' (by simp [ht'])).1 (by simp [h]),
+          (hfr t' (by simp [ht'])).2⟩)
+        (fun q hq => by
+          have hqt : q ≠ t := fun h => htps (h ▸ hq)
+          rw [f1 q hqt, hm1o]; exact hok q (by simp [hq]))
+      refine ⟨m', by simp [bcastOutLoop, e1, e], ?_, ?_⟩
+      · intro pt hpt i
+        rw [List.zip_cons_cons, List.mem_cons] at hpt
+        rcases hpt with rfl | hpt
+        · simp only []; rw [f t hnd'.1, v1 i]
+        · have hq : pt.1 ∈ ps := (List.of_mem_zip hpt).1
+          have hqt : pt.1 ≠ t := fun h => htps (h ▸ hq)
+          rw [v pt hpt i, f1 _ hqt, hm1o]
+      · intro b hb
+        have hbt : b ≠ t := fun h => hb (by simp [h])
+        have hbts : b ∉ ts := fun h => hb (by simp [h])
+        rw [f b hbts, f1 b hbt]
+
+/-- The six out-of-place element operators the broadcasting loop can call (`__add__` /
+`__radd__` → `addE`, `__sub__` → `subE`, `__rsub__` → `rsubE`, `__mul__` / `__rmul__` →
+`mulE`, `__truediv__` → `divE`, `__rtruediv__` → `rdivE`) meet `BStepOutOK` (from
+`C01.elem_op_correct`), division where the divisor has no zero entry. -/
+theorem C01.opStepOut_ok (lc : LC K) (h : LCSpec lc) (op : Op)
+    (hop : op = .addE ∨ op = .subE ∨ op = .mulE ∨ op = .divE ∨ op = .rsubE ∨ op = .rdivE) :
+    BStepOutOK (opStepOut lc op) (fun u v => op.spec 0 u v) (fun u v => DivOK op 0 u v) := by
+  intro p o t m htp hto hok
+  obtain ⟨m', r, e, hr, v, f⟩ := C01.elem_op_correct lc h op p o t 0 m htp hto hok
+  have hrt : r = t := by
+    rcases hop with rfl | rfl | rfl | rfl | rfl | rfl <;> simpa [Op.inPlace] using hr
+  subst hrt
+  exact ⟨m', by simp [opStepOut, e], v, fun b hb => f b hb hb⟩
+
+/-- OUT-OF-PLACE power-space broadcasting `x op other` / `other op x`
+(`_broadcast_arithmetic_impl` for the non-`__i…__` operators), whether or not the source
+copies `other` first (`guardAlways`; the driver runs it with the extracted
+`Gen.Broadcast.copyGuardAlways`): for ANY part buffers `ps` (shared part objects allowed),
+any operand buffer `o` — one of the parts or not —, pairwise distinct fresh result buffers
+`ts` and a fresh `t0`, the `k`-th part of the result holds `op.spec part_k other` computed
+from the ORIGINAL contents, and nothing but the fresh buffers changes: neither `x` nor
+`other` is modified. -/
+theorem C01.bcast_out_correct (lc : LC K) (h : LCSpec lc) (op : Op)
+    (hop : op = .addE ∨ op = .subE ∨ op = .mulE ∨ op = .divE ∨ op = .rsubE ∨ op = .rdivE)
+    (guardAlways : Bool) (ps ts : List Nat) (o t0 : Nat) (m : Mem K)
+    (hl : ps.length = ts.length) (hnd : ts.Nodup) (hfr : ∀ t ∈ ts, t ∉ ps ∧ t ≠ o)
+    (ht0 : t0 ∉ ps ∧ t0 ∉ ts ∧ t0 ≠ o) (hok : ∀ p ∈ ps, DivOK op 0 (m p) (m o)) :
+    ∃ m', bcastOut lc (opStepOut lc op) guardAlways ps ts o t0 m = some m' ∧
+      (∀ pt ∈ ps.zip ts, ∀ i, m' pt.2 i = op.spec 0 (m pt.1 i) (m o i)) ∧
+      ∀ b, b ∉ ts → b ≠ t0 → m' b = m b := by
+  have hs := C01.opStepOut_ok lc h op hop
+  unfold bcastOut
+  by_cases hc : (guardAlways && ps.contains o) = true
+  · rw [if_pos hc]
+    obtain ⟨m1, e1, v1, f1⟩ := C01.lincomb1_ok lc h 1 o t0 m
+    have hm1t : m1 t0 = m o := by funext i; rw [v1 i]; simp
+    have hps : ∀ p ∈ ps, m1 p = m p := fun p hp => f1 p (fun h => ht0.1 (h ▸ hp))
+    obtain ⟨m', e, v, f⟩ := C01.bcastOutLoop_ok _ _ _ t0 hs ps ts m1 hl hnd
+      (fun t ht => ⟨(hfr t ht).1, fun h => ht0.2.1 (h ▸ ht)⟩)
+      (fun p hp => by rw [hps p hp, hm1t]; exact hok p hp)
+    refine ⟨m', by simp [e1, e], ?_, ?_⟩
+    · intro pt hpt i
+      rw [v pt hpt i, hps _ (List.of_mem_zip hpt).1, hm1t]
+    · intro b hb hbt; rw [f b hb, f1 b hbt]
+  · rw [if_neg hc]
+    obtain ⟨m', e, v, f⟩ := C01.bcastOutLoop_ok _ _ _ o hs ps ts m hl hnd hfr hok
+    exact ⟨m', e, v, fun b hb _ => f b hb⟩
+
+/-- Non-vacuity: `x / x[0]` on a three-part element whose first two parts are the SAME
+object, through the extracted tensor `_lincomb`; every hypothesis is discharged. -/
+example : ∃ m', bcastOut (K := Rat) (fun A a b m => lincombImpl params 2 contigD A a b m)
+      (opStepOut (fun A a b m => lincombImpl params 2 contigD A a b m) .divE)
+      OdlModel.Gen.Broadcast.copyGuardAlways [0, 0, 1] [2, 3, 4] 0 5
+      (fun b i => (b : Rat) + i + 2) = some m' ∧ m' 4 1 = 4 / 3 := by
+  obtain ⟨m', e, v, _⟩ := C01.bcast_out_correct (K := Rat) _ (C01.tensor_lincomb_spec 2 contigD)
+    .divE (by simp) OdlModel.Gen.Broadcast.copyGuardAlways [0, 0, 1] [2, 3, 4] 0 5
+    (fun b i => (b : Rat) + i + 2) rfl (by decide) (by decide) (by decide)
+    (by intro p _ i; show ((0 : ℕ) : ℚ) + (i : ℚ) + 2 ≠ 0
+        exact_mod_cast (by omega : 0 + i + 2 ≠ 0))
+  exact ⟨m', e, by rw [v (1, 4) (by simp) 1]; norm_num [Op.spec]⟩
+
+/-! ## `ProductSpace._multiply` / `_divide`: the component loop -/
+
+/-- The component loop of `ProductSpace._lincomb/_multiply/_divide` for any leaf primitive
+that writes `g x y` (from the pre-state) into its `out` and touches nothing else, under any
+identity aliasing: if no part object occurs twice in `out` and part `i` of `out` is not part
+`j ≠ i` of an operand (so `out is x1`, `out is x2`, `x1 is x2`, all three, or disjoint
+elements — NOT elements built from shared part objects), every part of `out` holds
+`g x_k y_k` and nothing else is modified. `ok` restricts the operand contents for which the
+leaf is exact (divisor without zero entry). -/
+theorem C01.ploop_correct (prim : Args → Mem K → Option (Mem K)) (g : K → K → K)
+    (ok : Vec K → Prop)
+    (hp : ∀ A m, ok (m A.x2) → ∃ m', prim A m = some m' ∧
+      (∀ i, m' A.out i = g (m A.x1 i) (m A.x2 i)) ∧ ∀ buf, buf ≠ A.out → m' buf = m buf) :
+    ∀ (xs ys os : List Nat) (m : Mem K), xs.length = os.length → ys.length = os.length →
+      os.Nodup →
+      (∀ i j (hi : i < os.length) (_hj : j < os.length), i ≠ j →
+          os[i] ≠ xs[j]! ∧ os[i] ≠ ys[j]!) →
+      (∀ y ∈ ys, ok (m y)) →
+      ∃ m', ploop prim xs ys os m = some m' ∧
+        (∀ k (hk : k < os.length) i, m' os[k] i = g (m xs[k]! i) (m ys[k]! i)) ∧
+        (∀ buf, buf ∉ os → m' buf = m buf) := by
+  intro xs ys os
+  induction os generalizing xs ys with
+  | nil =>
+    intro m hx hy _ _ _
+    have : xs = [] := List.length_eq_zero_iff.mp hx
+    have : ys = [] := List.length_eq_zero_iff.mp hy
+    subst_vars
+    exact ⟨m, rfl, fun k hk => absurd hk (by simp), fun _ _ => rfl⟩
+  | cons o os ih =>
+    intro m hx hy hnd hdis hok
+    match xs, ys, hx, hy with
+    | x :: xs, y :: ys, hx, hy =>
+      obtain ⟨m1, e1, s1, f1⟩ := hp ⟨x, y, o⟩ m (hok y (by simp))
+      have hnd' := List.nodup_cons.mp hnd
+      have hys : ∀ k (hk : k < ys.length), o ≠ ys[k] := by
+        intro k hk
+        have hk' : k + 1 < (o :: os).length := by
+          have : ys.length = os.length := by simpa using hy
+          simp; omega
+        have hd := hdis 0 (k+1) (by simp) hk' (by omega)
+        simp only [List.getElem_cons_zero, List.getElem!_cons_succ] at hd
+        have : ys[k]! = ys[k] := by simp [hk]
+        rw [this] at hd; exact hd.2
+      obtain ⟨m', e, s, f⟩ := ih xs ys m1 (by simpa using hx) (by simpa using hy) hnd'.2
+        (fun i j hi hj hij => by
+          have := hdis (i+1) (j+1) (by simpa using hi) (by simpa using hj) (by omega)
+          simpa using this)
+        (fun y' hy' => by
+          obtain ⟨k, hk, rfl⟩ := List.getElem_of_mem hy'
+          rw [f1 _ (Ne.symm (hys k hk))]; exact hok _ (by simp))
+      refine ⟨m', by simp [ploop, e1, e], ?_, ?_⟩
+      · intro k hk i
+        cases k with
+        | zero =>
+          simp only [List.getElem_cons_zero, List.getElem!_cons_zero]
+          rw [f o hnd'.1]; exact s1 i
+        | succ k =>
+          have hk' : k < os.length := by simpa using hk
+          simp only [List.getElem_cons_succ, List.getElem!_cons_succ]
+          rw [s k hk' i]
+          have hd := hdis 0 (k+1) (by simp) hk (by omega)
+          simp only [List.getElem_cons_zero, List.getElem!_cons_succ] at hd
+          rw [f1 _ (Ne.symm hd.1), f1 _ (Ne.symm hd.2)]
+      · intro buf hb
+        have hb' : buf ≠ o ∧ buf ∉ os := by simpa [List.mem_cons, not_or] using hb
+        rw [f buf hb'.2, f1 buf hb'.1]
+
+/-- `space.multiply(x1, x2, out)` on a (nested) product space — `ProductSpace._multiply` over
+the tensor leaf `np.multiply(x1.data, x2.data, out=out.data)` — under every identity alias
+pattern of `(x1, x2, out)`: part `k` of `out` holds `x1_k * x2_k` from the pre-state, nothing
+else is modified. The leaf's own correctness under aliasing holds by construction of
+`multiply` (NumPy's ufunc with `out=` an operand is modelled as an exact entry-wise map); the
+content of the theorem is the loop. -/
+theorem C01.pmultiply_correct (xs ys os : List Nat) (m : Mem K)
+    (hx : xs.length = os.length) (hy : ys.length = os.length) (hnd : os.Nodup)
+    (hdis : ∀ i j (hi : i < os.length) (_hj : j < os.length), i ≠ j →
+      os[i] ≠ xs[j]! ∧ os[i] ≠ ys[j]!) :
+    ∃ m', pmultiply xs ys os m = some m' ∧
+      (∀ k (hk : k < os.length) i, m' os[k] i = m xs[k]! i * m ys[k]! i) ∧
+      (∀ buf, buf ∉ os → m' buf = m buf) :=
+  C01.ploop_correct _ (fun u v => u * v) (fun _ => True)
+    (fun A m _ => ⟨_, rfl, fun i => by simp [multiply, Mem.write],
+      fun b hb => by simp [multiply, Mem.write, hb]⟩) xs ys os m hx hy hnd hdis (fun _ _ => trivial)
+
+/-- `space.divide(x1, x2, out)` on a (nested) product space, likewise (`x1_k / x2_k`; the
+quotient is the field's, so the statement says something about the code only where no entry
+of `x2` is zero — NumPy gives inf/nan there, the field gives 0). -/
+theorem C01.pdivide_correct (xs ys os : List Nat) (m : Mem K)
+    (hx : xs.length = os.length) (hy : ys.length = os.length) (hnd : os.Nodup)
+    (hdis : ∀ i j (hi : i < os.length) (_hj : j < os.length), i ≠ j →
+      os[i] ≠ xs[j]! ∧ os[i] ≠ ys[j]!) :
+    ∃ m', pdivide xs ys os m = some m' ∧
+      (∀ k (hk : k < os.length) i, m' os[k] i = m xs[k]! i / m ys[k]! i) ∧
+      (∀ buf, buf ∉ os → m' buf = m buf) :=
+  C01.ploop_correct _ (fun u v => u / v) (fun _ => True)
+    (fun A m _ => ⟨_, rfl, fun i => by simp [divide, Mem.write],
+      fun b hb => by simp [divide, Mem.write, hb]⟩) xs ys os m hx hy hnd hdis (fun _ _ => trivial)
+
+/-- The loop is sensitive to shared part objects (why the hypothesis is there): with
+`out = (a, b)`, `x1 = (b, a)` the second component reads the already overwritten `a`. -/
+theorem C01.pmultiply_crosswise_fails :
+    let m : Mem ℚ := fun b _ => if b = 0 then 2 else 3
+    (pmultiply [1, 0] [1, 0] [0, 1] m).map (fun m' => m' 1 0) = some 81 ∧ (2 : ℚ) * 2 = 4 := by
+  simp [pmultiply, ploop, multiply, Mem.write]; norm_num
+
+/-- Non-vacuity of `C01.pmultiply_correct`: `out is x1`, two parts. -/
+example : ∃ m', pmultiply (K := Rat) [0, 1] [2, 3] [0, 1] (fun b i => (b : Rat) + i) = some m' ∧
+    m' 1 2 = 15 := by
+  obtain ⟨m', e, s, _⟩ := C01.pmultiply_correct (K := Rat) [0, 1] [2, 3] [0, 1]
+    (fun b i => (b : Rat) + i) rfl rfl (by decide)
+    (by
+      intro i j hi hj hij
+      have hi' : i = 0 ∨ i = 1 := by simp at hi; omega
+      have hj' : j = 0 ∨ j = 1 := by simp at hj; omega
+      rcases hi' with rfl | rfl <;> rcases hj' with rfl | rfl <;> simp_all)
+  have h1 := s 1 (by simp) 2
+  simp at h1
+  exact ⟨m', e, by rw [h1]; norm_num⟩
 
 end
 
